@@ -11,12 +11,12 @@ func init() {
 			var js []*Job
 			for n := 1; n <= nl; n++ {
 				js = append(js, &Job{Name: sprintf("lex-n%d", n), Pkg: "ti/lexer", Entry: "VerifLexAll", N: n, Budget: 6000 * (n + 2),
-					Reach: []string{"eos"}, Asserts: []string{"consumed"}, Replay: "kernel",
+					Reach: []string{"eos"}, Asserts: []string{"consumed"}, Replay: "kernel", Cross: true,
 					Bound: sprintf("every sequence of exactly %d runes (each an unconstrained Unicode scalar value, 21 bits) through reader.Read/Unread/AppendHistory and lexer.Advance until it returns false; unwinding bound %d SSA steps per path", n, 6000*(n+2))})
 			}
 			for n := 1; n <= np; n++ {
 				js = append(js, &Job{Name: sprintf("read-n%d", n), Pkg: "ti/parser", Entry: "VerifReadAll", N: n, Budget: 8000 * (n + 2),
-					Reach: []string{"eos"}, Asserts: []string{"no-read-error"}, Replay: "kernel",
+					Reach: []string{"eos"}, Asserts: []string{"no-read-error"}, Replay: "kernel", Cross: true,
 					Bound: sprintf("every sequence of exactly %d ASCII runes (< 0x80) through reader, lexer and parser.Read until EOS", n)})
 			}
 			return js
